@@ -39,8 +39,10 @@ RULE = (
 )
 ASSUMPTIONS = [
     "a warm-up run on benign inputs precedes recording, so fickling's own lazy imports are done",
-    "polyglot's recursive property discovery (which by design extracts archive members into a "
-    "temporary directory) is not an analysis of a pickle and is exercised in C17, not here",
+    "polyglot's recursive property discovery extracts archive members into a temporary directory by "
+    "design: for it (shard `archives`: tar / zip archives, nested once, of payload pickles under "
+    "hostile member names) writes are allowed only inside the directories tempfile creates during "
+    "the call, and nothing may remain afterwards; all other clauses apply unchanged",
     "the monitor is CPython's audit-hook mechanism plus directory/sys.modules deltas; an effect "
     "that raises no audit event and leaves no trace in cwd/sys.modules is not observable",
 ]
@@ -294,6 +296,116 @@ def observe(data, scratch, warm=False):
     return msg, reached
 
 
+ARCHIVE_NAMES = ("ok.pkl", "../evil.pkl", "../../evil2.pkl", "sub/x.pkl", "sub/../../up.pkl", "/abs_evil.pkl",
+                 "./dot.pkl", "a/b/c/deep.pkl", "evil\\..\\win.pkl", "data.pkl", "pickle")  # fmt: skip
+_FS_MUTATORS = ("os.remove", "os.rename", "os.mkdir", "os.rmdir", "os.unlink", "shutil.", "os.symlink",
+                "os.link", "os.truncate", "os.chmod", "os.chown")  # fmt: skip
+
+
+def build_archive(kind, members):
+    """bytes of a tar / plain zip whose members are (name, content bytes)"""
+    import tarfile
+
+    buf = io.BytesIO()
+    if kind == "tar":
+        with tarfile.open(fileobj=buf, mode="w", format=tarfile.PAX_FORMAT) as t:
+            for name, content in members:
+                ti = tarfile.TarInfo(name)
+                ti.size = len(content)
+                t.addfile(ti, io.BytesIO(content))
+    else:
+        import warnings
+
+        with warnings.catch_warnings():
+            warnings.simplefilter("ignore")  # duplicate member names are part of the domain
+            with zipfile.ZipFile(buf, "w") as z:
+                for name, content in members:
+                    z.writestr(zipfile.ZipInfo(name), content)
+    return buf.getvalue()
+
+
+def observe_archive(blob, scratch):
+    """polyglot's recursive property discovery unpacks archive members into a temporary directory by
+    design; everything else in the statement still binds it: nothing named by the input (a member
+    name is input) decides where a file is written, nothing is left behind, nothing is imported,
+    resolved, unpickled or spawned.  Returns message|None."""
+    import tempfile
+
+    from fickling import polyglot
+
+    mon = Monitor.get()
+    path = os.path.join(scratch.path, "input.bin")
+    with open(path, "wb") as f:
+        f.write(blob)
+    tmp = os.path.join(scratch.path, "tmp")
+    os.makedirs(tmp, exist_ok=True)
+    old_tmp = tempfile.tempdir
+    tempfile.tempdir = tmp
+    before = scratch.listing()
+    sink = io.StringIO()
+    try:
+        with mon.watch() as events:
+            try:
+                with contextlib.redirect_stdout(sink), contextlib.redirect_stderr(sink):
+                    polyglot.find_file_properties_recursively(path)
+            except RecursionError:
+                pass
+            except BaseException as e:  # noqa: BLE001
+                if isinstance(e, KeyboardInterrupt):
+                    raise
+        evs = list(events)
+    finally:
+        tempfile.tempdir = old_tmp
+    owned = []  # directories tempfile created for this call
+    cleaning = False
+    msg = None
+    for ev in evs:
+        kind = ev[0]
+        if kind == "os.mkdir" and isinstance(ev[1], str) and os.path.dirname(os.path.abspath(ev[1])) == tmp:
+            owned.append(os.path.abspath(ev[1]) + os.sep)
+            continue
+
+        def inside(p):
+            if isinstance(p, bytes):
+                p = os.fsdecode(p)
+            return isinstance(p, str) and any(os.path.abspath(p).startswith(o) or os.path.abspath(p) + os.sep == o for o in owned)
+
+        if kind == "shutil.rmtree" and inside(ev[1]):
+            cleaning = True
+            continue
+        if cleaning and kind in ("os.remove", "os.rmdir", "os.unlink") and isinstance(ev[1], str) \
+                and not os.path.isabs(ev[1]) and len(ev) > 2 and isinstance(ev[2], int):
+            continue  # rmtree of an owned directory works relative to a directory descriptor
+        if kind.startswith(_FS_MUTATORS):
+            if not all(inside(a) for a in ev[1:] if isinstance(a, (str, bytes)) and a):
+                msg = f"file-system change outside the call's own temporary directory: {ev!r}"
+                break
+            continue
+        if kind.startswith(WARM_FORBIDDEN):
+            msg = f"audit event {ev!r}"
+            break
+        if kind == "open":
+            target, mode = ev[1], ev[2]
+            if isinstance(mode, str) and any(c in mode for c in "wax+") and not inside(target):
+                msg = f"opened {target!r} with mode {mode!r} (outside the call's own temporary directory)"
+                break
+    after = scratch.listing()
+    if msg is None and after != before:
+        extra = sorted(set(after) - set(before)) or sorted(k for k in after if after[k] != before.get(k))
+        msg = f"files left behind or changed after the call: {extra[:4]}"
+    scratch.wipe()
+    return msg
+
+
+def judge_archive(kind, members, scratch):
+    blob = build_archive(kind, members)
+    msg = observe_archive(blob, scratch)
+    if msg:
+        case = {"archive": kind, "members": [[n, c.hex()] for n, c in members]}
+        return Failure(case, f"recursive property discovery of a {kind} with members {[n for n, _ in members]} had an effect: {msg}")
+    return None
+
+
 def judge(data, scratch):
     msg, reached = observe(data, scratch)
     if msg:
@@ -303,6 +415,9 @@ def judge(data, scratch):
 
 def replay(case):
     with Scratch("c01") as scratch:
+        if "archive" in case:
+            _warmup(scratch)
+            return judge_archive(case["archive"], [(n, bytes.fromhex(c)) for n, c in case["members"]], scratch)
         data = bytes.fromhex(case["hex"])
         if case.get("warm"):
             # a once-per-process effect: judge the input as the first one of this process
@@ -410,11 +525,49 @@ def shards(tier):
             for i, c in enumerate(["empty", "seeded"])]  # fmt: skip
     if tier != "quick":
         out += [{"kind": "atheris", "runs": runs, "corpus": "seeded", "idx": 2 + i} for i in range(6)]
+    out += [{"kind": "archives", "n": 60 if tier == "quick" else 2000, "idx": i} for i in range(4)]
     return out
 
 
 def run_shard(spec, seed):
     res = ShardResult()
+    if spec["kind"] == "archives":
+        from hypothesis import strategies as st
+
+        payloads = st.sampled_from([
+            b"cos\nsystem\n(S'touch VERIF_PWNED'\ntR.", b"cverif_canary\nfire\n(S'x'\ntR.",
+            pickle.dumps([1, 2, "a"], 2), b"garbage", b"", b"cbuiltins\neval\n(S'1+1'\ntR.",
+        ])  # fmt: skip
+        leaf = st.tuples(st.sampled_from(ARCHIVE_NAMES), payloads)
+
+        @st.composite
+        def archive(draw, depth=0):
+            kind = draw(st.sampled_from(["tar", "zip"]))
+            members = draw(st.lists(leaf, min_size=1, max_size=4))
+            if depth < 1 and draw(st.booleans()):
+                ik, im = draw(archive(depth=depth + 1))
+                members.append((draw(st.sampled_from(["inner.bin", "../inner.bin", "sub/inner.tar"])), build_archive(ik, im)))
+            return kind, members
+
+        with Scratch("c01") as scratch:
+            f = _warmup(scratch)
+            if f is not None:
+                res.failures.append(f)
+                return res
+            # input-independent first-use effects of the archive path (tarfile/zipfile imports)
+            observe_archive(build_archive("tar", [("ok.pkl", b"N.")]), scratch)
+            observe_archive(build_archive("zip", [("ok.pkl", b"N.")]), scratch)
+
+            def body(case):
+                kind, members = case
+                f = judge_archive(kind, members, scratch)
+                hostile = any(n.startswith(("..", "/")) or "/../" in n for n, _ in members)
+                res.note(repr(case), hostile, klass=["archive-" + kind, "hostile-member-name" if hostile else "plain-names"],
+                         sample={"archive": kind, "members": [n for n, _ in members]})  # fmt: skip
+                return f
+
+            hypothesis_search(archive(), body, seed, spec["n"], res, batch=500)
+        return res
     if spec["kind"] == "structured":
         with Scratch("c01") as scratch:
             f = _warmup(scratch)
